@@ -482,6 +482,11 @@ func (p *twkbParser) nextPolygon() (Polygon, error) {
 		ls := NewLineString(NewSequence(coords, p.ctype))
 		rings = append(rings, ls)
 	}
+	if len(rings) == 0 {
+		// An empty Polygon (e.g. as a member of a MultiPolygon) has the same
+		// coordinates type as the rest of the geometry.
+		return Polygon{}.ForceCoordinatesType(p.ctype), nil
+	}
 	return NewPolygon(rings), nil
 }
 
@@ -595,6 +600,14 @@ func (p *twkbParser) nextGeometryCollection() (GeometryCollection, error) {
 			return GeometryCollection{}, err
 		}
 		p.pos += nbytes // Sub-parser's geometry has been read, so ensure it is skipped.
+		if g.IsEmpty() {
+			// Empty geometries are written without an extended precision
+			// header, so don't carry their own coordinates type. They have
+			// the same coordinates type as the collection they are part of
+			// (otherwise the Z and M values of the other members would be
+			// dropped when the collection is constructed).
+			g = g.ForceCoordinatesType(p.ctype)
+		}
 		geoms = append(geoms, g)
 	}
 	return NewGeometryCollection(geoms), nil
